@@ -58,7 +58,7 @@ func plan(tier string, seed int64) []driver.Case {
 		for _, t := range timedNames {
 			add("timed", t, s)
 		}
-		for _, t := range []string{"connectable", "connectable-noreset", "share", "sharereplay", "share-noreset"} {
+		for _, t := range []string{"connectable", "connectable-noreset", "share", "sharereplay", "share-noreset", "share-cfg-zero", "share-cfg-zero-err", "share-cfg-all", "share-cfg-all-err", "share-cfg-replaycfg"} {
 			add("hot", t, s)
 		}
 		for _, t := range []string{"subscription", "subscriber-safe", "subscriber-eventually"} {
@@ -237,6 +237,15 @@ func runScenario(c driver.Case) (ops int64) {
 		ops = 150
 	case "hot":
 		source := quietSource("s", 200, rec.Next, start)
+		if strings.HasPrefix(target, "share-cfg") {
+			// short sources that terminate while subscribers come and go: the reset bookkeeping of the
+			// non-default configurations is touched by the source's goroutine and by the unsubscribers
+			end := rec.Complete
+			if strings.HasSuffix(target, "-err") {
+				end = rec.Error
+			}
+			source = quietSource("s", 5+rng.Intn(30), end, start)
+		}
 		var obs ro.Observable[int]
 		var conn ro.ConnectableObservable[int]
 		switch target {
@@ -250,6 +259,12 @@ func runScenario(c driver.Case) (ops int64) {
 			obs = ro.Share[int]()(source.Observable())
 		case "sharereplay":
 			obs = ro.ShareReplay[int](2)(source.Observable())
+		case "share-cfg-zero", "share-cfg-zero-err":
+			obs = ro.ShareWithConfig(ro.ShareConfig[int]{Connector: func() ro.Subject[int] { return ro.NewReplaySubject[int](2) }, ResetOnRefCountZero: true})(source.Observable())
+		case "share-cfg-all", "share-cfg-all-err":
+			obs = ro.ShareWithConfig(ro.ShareConfig[int]{Connector: func() ro.Subject[int] { return ro.NewPublishSubject[int]() }, ResetOnRefCountZero: true, ResetOnComplete: true, ResetOnError: true})(source.Observable())
+		case "share-cfg-replaycfg":
+			obs = ro.ShareReplayWithConfig[int](2, ro.ShareReplayConfig{ResetOnRefCountZero: true})(source.Observable())
 		default:
 			obs = ro.ShareWithConfig(ro.ShareConfig[int]{Connector: func() ro.Subject[int] { return ro.NewPublishSubject[int]() }})(source.Observable())
 		}
